@@ -64,6 +64,9 @@ class FaultFS:
             self._add(self.root, tree)
         self.calls = []
         self.fault = fault
+        # a user-supplied listdir (PollingObserverVFS) may be LAZY - a generator that fails when iterated, not when called;
+        # both styles must give the same walk.  Decided by the fault position so that a replay sees the same style.
+        self.lazy = fault is not None and fault[0] % 2 == 1
 
     def _add(self, p, nd):
         self.stats[p] = VStat(*nd["st"])
@@ -87,12 +90,20 @@ class FaultFS:
             raise FileNotFoundError(errno.ENOENT, "virtual: no such entry", p) from None
 
     def listdir(self, p):
+        if self.lazy:
+            return self._listdir_lazy(p)
+        return self._listdir(p)
+
+    def _listdir(self, p):
         self._call("listdir", p)
         if p not in self.stats:
             raise FileNotFoundError(errno.ENOENT, "virtual: no such entry", p)
         if p not in self.kids:
             raise NotADirectoryError(errno.ENOTDIR, "virtual: not a directory", p)
         return [VEntry(n) for n in self.kids[p]]
+
+    def _listdir_lazy(self, p):
+        yield from self._listdir(p)
 
 
 def tree_wire(t):
@@ -276,6 +287,11 @@ def run_sequences(ctx, res: Result, seqs, label):
     lines, impls, metas = [], [], []
     for seq in seqs:
         rec = seq["recursive"]
+        # while the emitter is BUILT (schedule()) the file system shows another tree than at start(): "the baseline is the
+        # tree at start()" - whatever is read before on_thread_start() must not end up in the first poll's difference
+        pre = next((st["tree"] for st in reversed(seq["steps"]) if st["tree"] is not None), seq["start"])
+        if pre is not None:
+            fs.set(pre, None)
         if seq.get("via") == "PollingObserverVFS":
             # the public route: the observer builds the emitter from its stat/listdir (never started: no thread)
             obs = PollingObserverVFS(fs.stat, fs.listdir, polling_interval=0)
